@@ -1,7 +1,10 @@
 from props_common import COMMON_TRUSTED
 
 CONFIG = {
-    "areas": ["fuzz", "auth"],
+    "areas": ["fuzz", "auth", "stateres"],
+    # of the state-resolution area only the ops over possibly CYCLIC auth graphs (room versions 1-2; run in a child process so that a
+    # fatal stack overflow / a hang is an outcome): every other stateres op belongs to C10 / C11
+    "op_filter": {"stateres": ["stateres.resolve_cyc", "stateres.resolve_old_cyc"]},
     "lean": ["VProps.C18", "VProps.C02", "VProps.C06", "VProps.C07", "VProps.C14", "VProps.C17"],
     "sources": ["VProps/C18.lean", "VModel/Json.lean", "VModel/Auth.lean", "VModel/Event.lean", "VProps/C02.lean", "VProps/C06.lean", "VProps/C07.lean", "VProps/C14.lean", "VProps/C17.lean",
                 # accessors of the three event structs and state resolution with explicit panic sites (inventory: lean/VModel/PanicSites.md)
@@ -9,14 +12,19 @@ CONFIG = {
                 "VProofs/EventAccessors.lean", "VProofs/EventAccessorsRedact.lean", "VProofs/StateResPanic.lean", "VProofs/StateResNoPanic.lean",
                 "VDriver/Fuzz.lean"],
     "theorems": ["V.C18.version_table_total", "V.C18.version_table_keys", "V.C18.compact_no_panic", "V.C18.canonical_no_panic",
-                 # every method of the PDU interface on events NewEventFromUntrustedJSON returned (Redact() included; Sign() apart)
+                 # every method of the PDU interface on events NewEventFromUntrustedJSON returned (Redact() included); Sign() on them
+                 # WITHOUT any hypothesis on the signatures member (fix 299b756); every method but Redact() / Sign() on events from
+                 # trusted JSON, RoomID() of a version-12 create event included (fix 41b161b)
                  "V.C18.no_panic_accessors", "V.C18.no_panic_sign", "V.C18.no_panic_accessors_trusted",
-                 # the two preconditions those proofs forced, as kernel-checked counter-examples (both reproduced on the code: D1, D3)
-                 "V.C18.sign_panics", "V.C18.roomID_after_redact_panics", "V.C18.trusted_roomID_panics",
+                 # the former kernel-checked counter-examples (defects D1, D3, D4), now kernel-checked to behave: Sign() on an event
+                 # whose signatures member does not decode returns normally; the Room_id / room_id:null event is refused on
+                 # receipt; the trusted v12 create event with an event_id member gets a computed ID and a valid room ID
+                 "V.C18.sign_undecodable_ok", "V.C18.roomID_variant_refused", "V.C18.trusted_roomID_ok",
                  # state resolution (v1 / v2 / v2.1, current and deprecated entry points) and the orderings: refinement to
-                 # VModel.StateRes + no site fires under the stated preconditions; the acyclicity precondition is forced (D2)
+                 # VModel.StateRes + no site fires for ANY auth graph, cyclic or not (fix c5e96b7; before it acyclicity was a
+                 # hypothesis and a self-citing power-levels event a kernel-checked counter-example: D2)
                  "V.C18.resolve_refines", "V.C18.resolve_refines_deprecated", "V.C18.no_panic_resolve",
-                 "V.C18.no_panic_resolve_deprecated", "V.C18.no_panic_orderings", "V.C18.resolve_cycle_panics",
+                 "V.C18.no_panic_resolve_deprecated", "V.C18.no_panic_orderings", "V.C18.resolve_cycle_resolves",
                  # no-panic theorems of the other models (each states that the panic sites of that model are unreachable)
                  "V.C02.sign_never_panics", "V.C06.no_panic", "V.C07.no_panic_allowed", "V.C14.collect_no_panic", "V.C17.splitID_no_panic"],
     "rule": "every public entry point reachable with remote data (untrusted / trusted / headered event parsing + all accessors + signature "
@@ -24,18 +32,21 @@ CONFIG = {
             "/ SignJSON / VerifyJSON / ListKeyIDs; key responses + CheckKeys; Authorization headers + VerifyHTTPRequest; identifiers and base64; "
             "federation response bodies + LineariseStateResponse / CheckStateResponse; login tokens) driven under recover() with structure-aware "
             "mutations of generated room histories (field retyping, boundary integers, malformed IDs, 60% with a recomputed content hash so that "
-            "the event is accepted unredacted) and raw byte mutations, for all 16 room versions; every op is non-trivial",
+            "the event is accepted unredacted) and raw byte mutations, for all 16 room versions; plus (area stateres, ops resolve_cyc / resolve_old_cyc) "
+            "state resolution of room-version 1 / 2 histories whose auth_events were made CYCLIC (self-citing and mutually citing power-levels "
+            "events, create <-> power-levels, cycles among non-control events, join rules), each run in a child process with a stack limit and "
+            "a timeout; every op is non-trivial",
     "nontrivial": lambda op, impl: True,
     "trusted": COMMON_TRUSTED + [
         "panics inside third-party parsers and libraries (gjson / sjson / encoding/json / net/http / macaroon / go-set / lane) are outside the models: covered only by this stream",
-        "stack exhaustion on deeply nested JSON and memory exhaustion are outside the models; the three unguarded recursions of stateresolutionv2.go over auth events ARE modelled (a recursion deeper than the number of events supplied is a panic site)",
+        "stack exhaustion on deeply nested JSON and memory exhaustion are outside the models; the three recursions of stateresolutionv2.go over auth events ARE modelled (a recursion deeper than the number of events supplied + 2 is a panic site, proved unreachable for every auth graph) and exercised on cyclic auth graphs in a child process (stateres.resolve_cyc / resolve_old_cyc: a fatal stack overflow or a hang is the outcome panic:fatal-stack-overflow / panic:timeout)",
         "the site inventory lean/VModel/PanicSites.md was compiled by reading the fourteen files it lists; the fuzz.event op now runs the accessor and state-resolution models on every generated op (a site the code lacks, or a panic the model lacks, breaks the tie)",
         "state resolution is proved panic-free over the event view of VModel.Event (hypothesis EvOK per event = what no_panic_accessors establishes on the parsed form); the two views read duplicate case-variant members differently",
     ],
     "assumptions": [
-        "trusted-JSON constructors are fed arbitrary bytes for parsing and accessors only (Redact() / Sign() on trusted JSON, RoomID() of a version-12 create event whose trusted JSON carries its own event_id, EventID() after NewEventFromTrustedJSONWithEventID(\"\") are the caller's contract)",
+        "trusted-JSON constructors are fed arbitrary bytes for parsing and accessors only (Redact() / Sign() on trusted JSON and EventID() / RoomID() after NewEventFromTrustedJSONWithEventID with an ID of the caller's choosing are the caller's contract)",
         "the hash returns 32 bytes (SHA-256)",
-        "state resolution v2 / v2.1: at least two state sets (caller), and no cycle among the auth events (true of hashed event IDs unless the hash collides; NOT guaranteed in room versions 1-2: known defect D2 of PanicSites.md)",
-        "Sign() is outside no_panic_accessors: it panics on an accepted event whose signatures member does not decode (D1); accessors after Redact() are outside it when the event carries a case variant of room_id (D3)",
+        "state resolution v2 / v2.1: at least two state sets (caller); nothing is assumed about the auth graph (cyclic auth_events, possible in room versions 1-2 whose event IDs are sender-chosen, are covered since fix c5e96b7). The v2.1 conflicted-subgraph walk is not modelled as a loop (StateRes.conflictedSubgraph is a closure): it would re-walk a cyclic auth graph forever, but v2.1 is selected only by room versions 12 / org.matrix.hydra.11, whose event IDs are hashes of the events (a cycle needs a SHA-256 fixed point)",
+        "Sign() has its own theorem (no_panic_sign, no hypothesis on the signatures member since fix 299b756); the accessor sweep after Redact(), after Sign() and on the event SetUnsigned() returns is exercised by fuzz.event on every accepted event (events with a case variant of a struct field name or a repeated member name - D3, the content-forgery shapes - are refused on receipt since fixes 15162d8 / 37131f6)",
     ],
 }
